@@ -198,6 +198,15 @@ rep0_ctx_send(void *arg, nni_aio *aio)
 		return;
 	}
 
+	if (ctx->saio != NULL) {
+		// A reply sent earlier on this context is still waiting for
+		// its pipe, and the context can wait with only one.
+		nni_mtx_unlock(&s->lk);
+		nni_msg_header_clear(msg);
+		nni_aio_finish_error(aio, NNG_ESTATE);
+		return;
+	}
+
 	if (!nni_aio_start(aio, rep0_ctx_cancel_send, ctx)) {
 		nni_mtx_unlock(&s->lk);
 		return;
